@@ -12,7 +12,29 @@ type Hooks struct {
 
 var _ stakingtypes.StakingHooks = Hooks{}
 
-var sharesBeforeModified = sdk.NewDec(0)
+// sharesBeforeModifiedKey holds, inside one transaction only, the delegator's shares
+// recorded by BeforeDelegationSharesModified. It lives in the store (not in a package
+// variable) so that a failed or simulated transaction leaves nothing behind.
+var sharesBeforeModifiedKey = []byte("SharesBeforeModified/value/")
+
+func (k Keeper) setSharesBeforeModified(ctx sdk.Context, shares sdk.Dec) {
+	ctx.KVStore(k.storeKey).Set(sharesBeforeModifiedKey, []byte(shares.String()))
+}
+
+// popSharesBeforeModified returns the recorded shares (zero if none) and clears them.
+func (k Keeper) popSharesBeforeModified(ctx sdk.Context) sdk.Dec {
+	store := ctx.KVStore(k.storeKey)
+	bz := store.Get(sharesBeforeModifiedKey)
+	if bz == nil {
+		return sdk.NewDec(0)
+	}
+	store.Delete(sharesBeforeModifiedKey)
+	shares, err := sdk.NewDecFromStr(string(bz))
+	if err != nil {
+		return sdk.NewDec(0)
+	}
+	return shares
+}
 
 func (k Keeper) Hooks() Hooks {
 	return Hooks{k}
@@ -48,7 +70,7 @@ func (hook Hooks) BeforeDelegationCreated(ctx sdk.Context, delAddr sdk.AccAddres
 
 func (hook Hooks) BeforeDelegationSharesModified(ctx sdk.Context, delAddr sdk.AccAddress, valAddr sdk.ValAddress) error {
 	del := hook.k.staking.Delegation(ctx, delAddr, valAddr)
-	sharesBeforeModified = del.GetShares()
+	hook.k.setSharesBeforeModified(ctx, del.GetShares())
 	return nil
 } // Must be called when a delegation's shares are modified
 
@@ -68,6 +90,8 @@ func (hook Hooks) BeforeValidatorSlashed(ctx sdk.Context, valAddr sdk.ValAddress
 
 func (hook Hooks) verifySuperStorageNodes(ctx sdk.Context, valAddr sdk.ValAddress, accAddr sdk.AccAddress, beforeDeletationRemoved bool) {
 	delegations := hook.k.staking.GetValidatorDelegations(ctx, valAddr)
+
+	sharesBeforeModified := hook.k.popSharesBeforeModified(ctx)
 
 	//Records the shares that the validator shares have not been subtracted at the time of the unbond hook call
 	sharesToSub := sdk.NewDec(0)
@@ -126,8 +150,4 @@ func (hook Hooks) verifySuperStorageNodes(ctx sdk.Context, valAddr sdk.ValAddres
 		}
 	}
 
-	// reset shares before modified
-	if !sharesBeforeModified.IsZero() {
-		sharesBeforeModified = sdk.NewDec(0)
-	}
 }
